@@ -96,14 +96,26 @@ func (p *C04) Prepare(env *Env, tier string, seed uint64) error {
 		}
 		// token-level mutations
 		toks := model.TokenSpans(s.Text)
-		nm := 8
+		nm := 10
 		if len(toks) > 1 {
 			for m := 0; m < nm; m++ {
 				i := r.Intn(len(toks))
 				t := toks[i]
 				var mt string
 				var kind string
-				switch r.Intn(7) {
+				switch r.Intn(9) {
+				case 7, 8:
+					// white space of every kind dropped into the middle of a token or between two tokens
+					kind = "split"
+					ws := model.Pick(r, []string{" ", "\t", "\r", "\n", "\v", "\f", "\u0085", "\u00a0", "\u2028", "\u3000", "\r\n"})
+					at := t.Start
+					if t.End-t.Start > 1 && r.Chance(2, 3) {
+						at = t.Start + 1 + r.Intn(t.End-t.Start-1)
+						for at < t.End && !utf8.RuneStart(s.Text[at]) {
+							at++
+						}
+					}
+					mt = s.Text[:at] + ws + s.Text[at:]
 				case 5, 6:
 					// a character no tokenisation rule knows, directly at a token boundary
 					kind = "junk"
